@@ -1773,6 +1773,24 @@ def _c06_extra(gen):
 PROPS["C06"]["gen"] = _c06_extra(PROPS["C06"]["gen"])
 
 
+def _c16_extra(gen):
+    def g(rng, tier):
+        cases, meta = gen(rng, tier)
+        # clone_dyn of tags taken from a LOADED boot information: the padding behind them is foreign (non-zero in 70%)
+        cg = ConformantGen(rng.getrandbits(32))
+        kinds = ["cmdline", "bootloader", "module", "mmap", "framebuffer", "elf", "smbios", "network", "efi_mmap"]
+        for _ in range(1500 if tier == "thorough" else 120):
+            ks = [cg.r.choice(kinds) for _ in range(cg.r.choice([1, 2, 4, 6]))]
+            cases.append("cloneparsed " + hx(dirty_padding(E.mbi([getattr(cg, k)() for k in ks]), rng, 0.7)))
+        meta["dist"]["clones_of_parsed_tags"] = 1500 if tier == "thorough" else 120
+        meta["rule"] += " cloneparsed: clone_dyn of the first tag of every dynamically sized kind of loaded regions with foreign padding."
+        return cases, meta
+    return g
+
+
+PROPS["C16"]["gen"] = _c16_extra(PROPS["C16"]["gen"])
+
+
 # ==========================================================================
 # C08: the parse-side case sets in all four configurations
 # ==========================================================================
